@@ -81,6 +81,7 @@
 #include <string.h>
 #include <errno.h>
 #include <stdbool.h>
+#include <stdint.h>
 #include "qinternal.h"
 #include "containers/qvector.h"
 
@@ -132,7 +133,8 @@ qvector_t *qvector(size_t max, size_t objsize, int options) {
         vector->max = 0;
         vector->objsize = objsize;
     } else {
-        void *data = malloc(max * objsize);
+        // max * objsize must not wrap around.
+        void *data = (max <= SIZE_MAX / objsize) ? malloc(max * objsize) : NULL;
         if (data == NULL) {
             free(vector);
             errno = ENOMEM;
@@ -764,7 +766,12 @@ bool qvector_resize(qvector_t *vector, size_t newmax) {
         return true;
     }
 
-    void *newdata = realloc(vector->data, newmax * vector->objsize);
+    // newmax * objsize must not wrap around, or the buffer ends up (much)
+    // smaller than what max claims.
+    void *newdata = NULL;
+    if (newmax <= SIZE_MAX / vector->objsize) {
+        newdata = realloc(vector->data, newmax * vector->objsize);
+    }
     if (newdata == NULL) {
         errno = ENOMEM;
         vector->unlock(vector);
